@@ -230,6 +230,21 @@ def run(chk, model_ok=True):
                 if not (r[0] == "ok" and same(r[1], val)):
                     fail(f"{mode} SnmpSession.get on {peer.label}: got {repr(r)[:100]}, the reply denotes {e2e.canon(val)[:80]} ({kind})",
                          f"value {tlv.hex()}", [kind])
+    # values of a GetBulk walk that follows a walk the caller abandoned (rows left in that iterator's buffer)
+    from props import c05
+    for mode in ("sync", "async"):
+        for _ in range(4 if quick else 80):
+            mib, base = c05.gen_mib(rng)
+            maxrep, cap = rng.choice([2, 5, 20]), rng.choice([2, 5, 50])
+            peer = rng.choice([e2e.Peer("v2c"), e2e.Peer("v3", auth=1, priv=1, auth_kt="localized", priv_kt="localized")])
+            out = c05.run_mode(mode, peer, "bulk", values.dotted(base), maxrep, c05.agent_replies(mib, base, "bulk", maxrep, cap, False),
+                               env, False, True, True)
+            n_cli += 1
+            got = [(o, e2e.canon(v)) for o, v in out.yields]
+            exp = [(o, e2e.canon(v)) for o, v in c05.subtree(mib, base)]
+            if got != exp:
+                fail(f"{mode} getbulk walk of {values.dotted(base)} after an abandoned walk returned {got[:4]}.. instead of the "
+                     f"agent's rows {exp[:4]}..", f"# {mode} {peer.label} base={values.dotted(base)}")
     st2 = streams.Streams(chk, model_ok)
     st2.add("topy-e2e-replies", topy)
     st2.run()
